@@ -106,9 +106,13 @@ def verify_function(interp, key, contract, max_paths=4000):
                 if npaths > max_paths:
                     rep.out_of_subset.append('case %d: more than %d paths' % (ci, max_paths))
                     break
-            if restart and restarts < 6:
+            if restart:
                 restarts += 1
-                continue
+                if restarts <= 40:
+                    continue
+                # never accept the obligations of an aborted enumeration
+                obs = []
+                rep.out_of_subset.append('case %d: type promotion did not stabilise after %d restarts' % (ci, restarts))
             break
         rep.paths += npaths
         for o in obs:
@@ -204,7 +208,12 @@ def run_path(interp, fi, contract, case, ci, script):
     interp.assume_lemmas(contract.get('exit_lemmas', []), fr1)
     interp.frames.pop()
     for i, e in enumerate(contract.get('ensures', []) + case.get('ensures', [])):
-        v = interp.eval_spec(e, fr1)
+        try:
+            v = interp.eval_spec(e, fr1)
+        except Exception as ex:      # noqa
+            if type(ex).__name__ != 'MissingWitness':
+                raise
+            v = False                # the witness the postcondition refers to does not exist on this path
         interp.oblige('%s.post%d' % (key, i), v, 'post', line, note=e)
     # vacuity canary: `False` at a reachable normal exit must NOT be provable
     interp.oblige('%s.canary' % key, z3.BoolVal(False), 'canary', line, note='must not be provable (vacuity guard)')
